@@ -177,6 +177,8 @@ Consumed == SumPos(NG)
 
 HighWater == IF Consumed > TLCGet(1) THEN TLCSet(1, Consumed) /\ TLCSet(2, pos) ELSE TRUE
 Post == PrintT("@@TRACE " \o ToJson([matched |-> TLCGet(1), pos |-> TLCGet(2)]))
-\* the model's own type invariant in every state of the real execution
-TInv == TypeOK
+\* the model's own invariants on the states of the real execution: the type invariant in every state, the
+\* accounting invariants of C06/C07 (no handed line is nowhere unless a drop was counted) at every 32nd event
+\* (without spool the lines queued for a connection that died are dropped uncounted by design: only the steady-state form)
+TInv == TypeOK /\ (Consumed % 32 = 0 => Conservation_steady /\ (Spool => Conservation))
 =============================================================================
